@@ -97,7 +97,11 @@ func (p *Prog) expr(v ssa.Value, onPath map[ssa.Value]bool, depth int) *Expr {
 		}
 		return &Expr{Op: "opaque", Name: "freevar", Val: v}
 	case *ssa.Global:
-		return &Expr{Op: "global", Name: p.shorten(v.Pkg.Pkg.Path()) + "." + v.Name(), Val: v, Obj: v.Object()}
+		gname := v.Name()
+		if o := v.Object(); o != nil {
+			gname = p.VarName(o)
+		}
+		return &Expr{Op: "global", Name: p.shorten(v.Pkg.Pkg.Path()) + "." + gname, Val: v, Obj: v.Object()}
 	case *ssa.Function:
 		return &Expr{Op: "func", Name: p.FuncName(v), Val: v, Fn: v}
 	case *ssa.Builtin:
@@ -115,7 +119,7 @@ func (p *Prog) expr(v ssa.Value, onPath map[ssa.Value]bool, depth int) *Expr {
 		return &Expr{Op: "new", Name: p.shorten(types.TypeString(v.Type(), nil)), Val: v}
 	case *ssa.FieldAddr:
 		fld := fieldOf(v.X.Type(), v.Field)
-		return &Expr{Op: "field", Name: fld.Name(), Args: []*Expr{p.baseOf(v.X, v, onPath, depth)}, Val: v, Obj: fld}
+		return &Expr{Op: "field", Name: p.FieldName(fld), Args: []*Expr{p.baseOf(v.X, v, onPath, depth)}, Val: v, Obj: fld}
 	case *ssa.Field:
 		// a field of a struct value that was put together by a literal (possibly
 		// one of several, merged by a φ - `ep := splitEndpoint(..)` after
@@ -135,7 +139,7 @@ func (p *Prog) expr(v ssa.Value, onPath map[ssa.Value]bool, depth int) *Expr {
 			return e
 		}
 		fld := fieldOf(v.X.Type(), v.Field)
-		return &Expr{Op: "field", Name: fld.Name(), Args: []*Expr{sub(v.X)}, Val: v, Obj: fld}
+		return &Expr{Op: "field", Name: p.FieldName(fld), Args: []*Expr{sub(v.X)}, Val: v, Obj: fld}
 	case *ssa.IndexAddr:
 		return &Expr{Op: "index", Args: []*Expr{p.baseOf(v.X, v, onPath, depth), sub(v.Index)}, Val: v}
 	case *ssa.Index:
@@ -995,7 +999,7 @@ func structFieldOfLocal(al *ssa.Alloc, f int, at ssa.Instruction, depth int) []s
 		for _, ref := range *al.Referrers() {
 			switch r := ref.(type) {
 			case *ssa.Store:
-				if r.Addr != ssa.Value(al) || MayFollow(v, r) {
+				if r.Addr != ssa.Value(al) || MayFollowOn(al, v, r) {
 					return nil
 				}
 				a := structFieldValues(r.Val, f, depth+1)
@@ -1007,7 +1011,7 @@ func structFieldOfLocal(al *ssa.Alloc, f int, at ssa.Instruction, depth int) []s
 				for _, r2 := range *r.Referrers() {
 					switch u := r2.(type) {
 					case *ssa.Store:
-						if u.Addr != ssa.Value(r) || MayFollow(v, u) {
+						if u.Addr != ssa.Value(r) || MayFollowOn(al, v, u) {
 							return nil
 						}
 						if r.Field == f {
